@@ -36,7 +36,7 @@ def main():
             "quick_cmd": "./check %s --tier quick" % pid,
             "thorough_cmd": "./check %s --tier thorough" % pid,
             "evidence_file": "evidence/%s.json" % pid,
-            "replay_cmd_template": "build/plain/vsim replay {path}   # san flavour: build/san/vsim replay {path}",
+            "replay_cmd_template": "./replay {path}",
             "engine": "vsim",
             "level_claimed": {"category": m["level"], "text": LEVEL_TEXT[pid], "design_ref": "DESIGN.md section 3 (%s), section 2" % pid},
             "level_note": "Trusted base: the harness (sim/*.cc), its reference models (cross-checked against brute-force enumeration by `vsim selftest oracles`), g++ 12 and its sanitizers. Assumes the library is built as shipped (-DNDEBUG). Sampling: a clean batch is evidence, not proof. " + " ".join(m["assumptions"][4:]),
